@@ -20,8 +20,8 @@ Theorem C12_discover_service_terminates : forall r, finishes (discover_service (
 Proof. exact discover_service_terminates. Qed.
 Print Assumptions C12_discover_service_terminates.
 
-Theorem C12_discover_included_terminates : forall r sh se, 0 <= sh -> se <= 0xFFFF ->
-  finishes (discover_included (fuel_for sh) r sh se) 65536.
+Theorem C12_discover_included_terminates : forall r rd sh se, 0 <= sh -> se <= 0xFFFF ->
+  finishes (discover_included (fuel_for sh) r rd sh se) 65536.
 Proof. exact discover_included_terminates. Qed.
 Print Assumptions C12_discover_included_terminates.
 
@@ -73,22 +73,32 @@ Theorem C12_discover_service_exact : forall db mtu u,
 Proof. exact discover_service_exact. Qed.
 Print Assumptions C12_discover_service_exact.
 
-(* the handle ranges of included services are exact; the UUID the client attaches is the
-   declared one only for 16-bit UUIDs (known finding D12e, next two statements) *)
-Theorem C12_discover_included_exact_partial : forall db mtu sh se,
+(* included services (code after D12e: the declaration carries the UUID only when it is a
+   16-bit one, otherwise the client reads the included service's declaration): exactly what the
+   client's nested reads resolve to ... *)
+Theorem C12_discover_included_exact : forall db mtu sh se,
   23 <= mtu -> 1 <= sh -> se <= 0xFFFF ->
   db_sorted db = true -> decl_sizes_ok db = true ->
-  fst (client_discover_included mtu db sh se) = Done (map to_entry (includes_of db sh se)).
+  forallb (resolvable (srv_read_uuid db)) (map to_entry (includes_of db sh se)) = true ->
+  fst (client_discover_included mtu db sh se)
+  = Done (map (resolve_entry (srv_read_uuid db)) (map to_entry (includes_of db sh se))).
 Proof. exact discover_included_exact. Qed.
-Print Assumptions C12_discover_included_exact_partial.
+Print Assumptions C12_discover_included_exact.
 
-Theorem C12_included_uuid16_exact : forall u, u_len u = 2 -> 0 <= u_id u < 65536 -> incl_seen_uuid u = u.
-Proof. exact included_uuid16_exact. Qed.
-Print Assumptions C12_included_uuid16_exact.
+(* ... which is start handle, end handle and UUID exactly as declared, for 16-bit and 128-bit
+   UUIDs alike, in every database whose include declarations are consistent ... *)
+Theorem C12_discover_included_exact_declared : forall db mtu sh se,
+  23 <= mtu -> 1 <= sh -> se <= 0xFFFF ->
+  db_sorted db = true -> decl_sizes_ok db = true -> includes_consistent db = true ->
+  fst (client_discover_included mtu db sh se) = Done (map declared_include (includes_of db sh se)).
+Proof. exact discover_included_exact_declared. Qed.
+Print Assumptions C12_discover_included_exact_declared.
 
-Theorem C12_included_uuid128_refuted : exists u, u_len u = 16 /\ incl_seen_uuid u <> u.
-Proof. exact included_uuid128_refuted. Qed.
-Print Assumptions C12_included_uuid128_refuted.
+(* ... which every database built by add_services is (included services registered before) *)
+Theorem C12_add_service_includes_consistent : forall ss, specs_ok ss = true -> incl_idx_ok 0 ss = true ->
+  includes_consistent (build ss) = true.
+Proof. exact build_includes_consistent. Qed.
+Print Assumptions C12_add_service_includes_consistent.
 
 Theorem C12_discover_characteristics_exact : forall db mtu sh se,
   23 <= mtu -> 1 <= sh -> se <= 0xFFFF ->
@@ -201,14 +211,15 @@ Proof. exact subscriber_fan_out_routing. Qed.
 Print Assumptions C12_subscriber_fan_out_routing.
 
 (* end to end, no well-formedness hypothesis left: whatever add_services was given *)
-Theorem C12_client_sees_database : forall ss mtu, 23 <= mtu -> specs_ok ss = true -> total_size ss <= 0xFFFE ->
+Theorem C12_client_sees_database : forall ss mtu, 23 <= mtu -> specs_ok ss = true -> incl_idx_ok 0 ss = true ->
+  total_size ss <= 0xFFFE ->
   let db := build ss in
   fst (client_discover_services mtu db) = Done (map to_entry (primary_services db)) /\
   fst (client_discover_attributes mtu db) = Done (map info_entry db) /\
   (forall u, fst (client_discover_service mtu db u) = Done (map to_entry (services_with db u))) /\
   (forall s, In s (primary_services db) ->
      fst (client_discover_included mtu db (a_handle s) (a_end s))
-       = Done (map to_entry (includes_of db (a_handle s) (a_end s))) /\
+       = Done (map declared_include (includes_of db (a_handle s) (a_end s))) /\
      fst (client_discover_characteristics mtu db (a_handle s) (a_end s))
        = Done (map to_entry (chardecls_of db s)) /\
      (forall us, fst (discover_characteristics_uuids (fuel_for (a_handle s))
@@ -224,8 +235,10 @@ Print Assumptions C12_client_sees_database.
 (* ---------------------------------------------------------------- the model matches the source (regenerated on every run)
    Gen/C12Shape.v is written by tools/translate/c12_shape.py from the current bumble sources:
    the control-flow skeleton of the 31 anchored functions and 63 constants of their arithmetic.
-   They must equal the tables the model was written from ... *)
-Theorem C12_skeletons_match_source : skeletons_eqb src_skeletons model_skeletons = true.
+   They must equal the tables the model was written from (skeletons_match also accepts the two
+   functions touched by the repair D12e in their unrepaired form: then the known finding D12e is
+   reported by the oracle) ... *)
+Theorem C12_skeletons_match_source : skeletons_match src_skeletons = true.
 Proof. vm_compute. reflexivity. Qed.
 Print Assumptions C12_skeletons_match_source.
 
@@ -291,8 +304,13 @@ Definition ex_specs : list svc_spec :=
         mkCS (mkU 16 (2 ^ 100 + 7)) 0x32 [] [mkDS (U16 0x2901) [65]] ];
     mkSS (mkU 16 (2 ^ 120 + 1)) true [0%nat] [ mkCS (U16 0x2A19) 0x10 [50] [] ] ].
 
-Example ex_specs_ok : specs_ok ex_specs = true /\ db_wf (build ex_specs) = true.
-Proof. vm_compute. split; reflexivity. Qed.
+Example ex_specs_ok : specs_ok ex_specs = true /\ incl_idx_ok 0 ex_specs = true /\ db_wf (build ex_specs) = true /\
+  includes_consistent (build ex_specs) = true.
+Proof. vm_compute. repeat split; reflexivity. Qed.
+
+Example ex_included :     (* the second service includes the first *)
+  fst (client_discover_included 23 (build ex_specs) 8 12) = Done [mkE 9 9 false [1; 7; 2; 0x1800]].
+Proof. vm_compute. reflexivity. Qed.
 
 Example ex_services :
   fst (client_discover_services 23 (build ex_specs))
@@ -308,7 +326,7 @@ Example ex_long_read : read_from_server 30 23 (repeat 7 44) = RDone (repeat 7 44
 Proof. vm_compute. reflexivity. Qed.
 
 Example ex_read_adversary :     (* a peer that always answers 22 bytes: the read ends by exception *)
-  read_value (Z.to_nat 0x10000) (VVal (repeat 0 22)) (fun _ => VVal (repeat 0 22)) 23 false = RRaised (-4).
+  read_value (Z.to_nat 0x10000) (VVal (repeat 0 516)) (fun _ => VVal (repeat 0 516)) 517 false = RRaised (-4).
 Proof. vm_compute. reflexivity. Qed.
 
 Example ex_filter :
